@@ -9,8 +9,11 @@ from concurrent.futures import ThreadPoolExecutor
 
 VERIF = os.path.dirname(os.path.dirname(os.path.dirname(os.path.abspath(__file__))))
 REPO = os.environ.get('VERIF_REPO', '/repo')
-BUILD = os.path.join(VERIF, 'build')
-OUT = os.path.join(VERIF, 'out')
+# a run against another tree (VERIF_REPO=<scratch worktree>, used to try seeded changes) keeps its build products, replays and evidence apart
+ALT = REPO != '/repo'
+BUILD = os.environ.get('VERIF_BUILD') or os.path.join(VERIF, 'build-alt' if ALT else 'build')
+OUT = os.path.join(BUILD, 'out') if ALT else os.path.join(VERIF, 'out')
+EVIDENCE = os.path.join(BUILD, 'evidence') if ALT else os.path.join(VERIF, 'evidence')
 SPEC = os.path.join(VERIF, 'spec')
 HARNESS = os.path.join(VERIF, 'harness')
 PRELUDE = os.path.join(VERIF, 'engine', 'prelude', 'verif_prelude.h')
@@ -495,8 +498,8 @@ class Result:
               'assumptions': self.assumptions, 'wall_s': round(time.time() - self.t0, 2), 'violations': len(real)}
         if self.known_hits:
             ev['coverage']['known_findings_reproduced'] = self.known_hits
-        os.makedirs(os.path.join(VERIF, 'evidence'), exist_ok=True)
-        with open(os.path.join(VERIF, 'evidence', self.pid + '.json'), 'w') as f:
+        os.makedirs(EVIDENCE, exist_ok=True)
+        with open(os.path.join(EVIDENCE, self.pid + '.json'), 'w') as f:
             json.dump(ev, f, indent=1)
         for sig, path, desc in real:
             print('VIOLATION property=%s replay=%s' % (self.pid, path))
